@@ -5,6 +5,7 @@ package main
 
 import (
 	"fmt"
+	"regexp"
 	"strings"
 )
 
@@ -49,9 +50,17 @@ func (g *Gen) msgText() (text string, kind string) {
 	case 3:
 		m2 := r.Msg(o)
 		return t + m2.Text, "msg-pipelined"
+	case 4:
+		// the declared Content-Length / Expires / CSeq number replaced by a boundary number (2^16, 2^24, 2^32, 10^9 …
+		// ± 1, leading zeros, 10 – 40 digits): the range checks must give the same answer however the number is cut
+		if loc := msgNumberRe.FindStringSubmatchIndex(t); loc != nil && r.P(60) {
+			return t[:loc[2]] + r.Digits() + t[loc[3]:], "msg-boundary-number"
+		}
 	}
 	return t, "msg-valid"
 }
+
+var msgNumberRe = regexp.MustCompile(`(?i)\n(?:content-length|l|expires|cseq)[ \t]*:[ \t]*(\d+)`)
 
 func capStr(r *Rng, max int) string {
 	switch r.N(6) {
